@@ -21,7 +21,7 @@ from . import common
 
 ID = "C17"
 RUNS = {"quick": 1200, "thorough": 100000}
-TIME = {"quick": 80, "thorough": 1500}
+TIME = {"quick": 150, "thorough": 1500}
 N1 = {"quick": 1200, "thorough": 3000}
 WALL = 240.0
 RULE_TEXT = (
@@ -68,7 +68,20 @@ def generate(run_seed, tier):
         m = rng.randint(1, max(1, min(len(mentioned(jp)), 3)))
         case = {"kind": kind, "rule": rule, "kw": {"m": m}, "profile": jp, "policies": common.gen_policies(rng, run_seed), "seed": seed}
         return case
-    sub = rng.choice(["RandomDictator", "BoostedRandomDictator", "PluralityTie", "STVElimTie"]) if kind == "F" else rng.choice(["PluralityTie", "STVElimTie"])
+    sub = rng.choice(["RandomDictator", "BoostedRandomDictator", "PluralityTie", "STVElimTie"]) if kind == "F" else rng.choice(["PluralityTie", "STVElimTie", "STVZeroTie"])
+    if sub == "STVZeroTie":
+        # every ballot is exhausted once the supported candidates are elected; the remaining seat(s) go to zero-vote candidates,
+        # who are level now and were level in round 0: only a draw over all of them can decide who is eliminated
+        z = rng.randint(2, 4)
+        sup = rng.randint(1, 2)
+        names = G.NAME_FAMILIES["plain"][: sup + z]
+        rng.shuffle(names)
+        supported, zero = names[:sup], names[sup:]
+        bs = [{"r": [[c]] + ([[d] for d in supported if d != c] if rng.random() < 0.5 else []), "w": str(rng.randint(2, 6))} for c in supported]
+        m = sup + rng.randint(1, z - 1)
+        jp = {"candidates": sorted(names), "ballots": bs}
+        return {"kind": "T", "sub": sub, "rule": "STV", "kw": {"m": m, "quota": "droop", "simultaneous": rng.random() < 0.5, "tiebreak": rng.choice(["random", "borda", "first_place"]), "transfer": "fractional"},
+                "profile": jp, "n1": N1[tier], "seed": seed, "tied": zero, "policies": common.gen_policies(rng, run_seed)}
     if sub in ("RandomDictator", "BoostedRandomDictator"):
         jp = gen_profile(rng)
         jp["candidates"] = jp["candidates"][:4]
@@ -472,7 +485,15 @@ def execute_tieset(case, trace):
             pop = flat(e.get("pop") or [])
             if pop and all(isinstance(x, str) and x in names for x in pop):
                 cand_draws.append(set(pop))
-        if not cand_draws:
+        if not cand_draws and o.seam.nontrivial == 0:
+            violations.append({
+                "clause": "tie-without-draw",
+                "message": f"{case['rule']} {case['kw']} on {case['profile']} under schedule {pol['kind']}: candidates {sorted(S)} are exactly level across the contested seat "
+                           f"(and were level on every earlier tally), yet the run made no random choice at all: the order in which they lose is fixed, not uniform",
+                "sig": {"kind": "T", "rule": case["sub"], "clause": "tie-without-draw"},
+            })
+            break
+        elif not cand_draws:
             probes["tie_draw_not_recognisable"] = probes.get("tie_draw_not_recognisable", 0) + 1
         elif not any(S <= p for p in cand_draws):
             faults["decomposed_exact_ties"] = faults.get("decomposed_exact_ties", 0) + 1
